@@ -580,7 +580,7 @@ theorem fragLoop_small (unit : Nat) (sr : Int) (lb fuel pos rawLength : Nat) (pa
         if rawLength + lb = 0 then .ok lenBits
         else .ok (lenBits ++ alignBits (pos + lenBits.length) ++ payload.take ((rawLength + lb) * unit)) := by
   unfold fragLoop
-  have h1 : ¬ rawLength > 65536 := by omega
+  have h1 : ¬ rawLength ≥ 65536 := by omega
   have h2 : ¬ rawLength ≥ 16384 := by omega
   simp only [h1, h2, if_false]
   cases appendLength pos sr rawLength with
@@ -589,7 +589,7 @@ theorem fragLoop_small (unit : Nat) (sr : Int) (lb fuel pos rawLength : Nat) (pa
     dsimp only
     split
     · rfl
-    · simp
+    · simp [h2]
 
 /-- the size preamble of the encoder and the bounds the decoder derives agree -/
 theorem sizePreamble_spec (len : Nat) (ext : Bool) (lbP ubP : Option Int) (pre : Bits) (lb ub sr : Int)
